@@ -115,6 +115,8 @@ func checkC05(r *run, c *ExtSeqCase) (CaseInfo, error) {
 		}
 	}
 	firstSetOnBare := c.Start == "fresh"
+	var lastWire []byte // bytes of the latest Wire step of an RFC 8285 header, and what they carry
+	var lastModel extModel
 	accepted, changed, wired := 0, 0, 0
 
 	invariant := func(step int, what string) error {
@@ -220,6 +222,20 @@ func checkC05(r *run, c *ExtSeqCase) (CaseInfo, error) {
 			if err := invariant(i, "get"); err != nil {
 				return ci, err
 			}
+		case "rewire":
+			// the header - with whatever Set/Del calls were made on it since - decodes the bytes an earlier
+			// Wire step produced: it must then hold exactly what those bytes carry
+			if lastWire == nil {
+				continue
+			}
+			if _, err := h.Unmarshal(clone(lastWire)); err != nil {
+				return ci, failf("step %d: the header rejects bytes it marshalled at an earlier step: %v (%s)", i, err, hx(lastWire))
+			}
+			model = append(extModel{}, lastModel...)
+			ci.class("earlier-wire-image-decoded-into-the-used-header")
+			if err := invariant(i, "Unmarshal of the bytes of an earlier Wire step into this header"); err != nil {
+				return ci, err
+			}
 		case "wire":
 			b, err, pn := safeMarshal(&h)
 			if pn != nil {
@@ -252,6 +268,12 @@ func checkC05(r *run, c *ExtSeqCase) (CaseInfo, error) {
 				// header-only round trip: nothing follows the header on the wire
 				pkt = clone(b)
 				ci.class("wire-header-only")
+			}
+			if h.Extension && !isLegacyProfile(h.ExtensionProfile) {
+				lastWire, lastModel = clone(pkt), nil
+				for _, e := range model {
+					lastModel = append(lastModel, kv{e.id, clone(e.val)})
+				}
 			}
 			var h2 rtp.Header
 			if _, err := h2.Unmarshal(pkt); err != nil {
@@ -322,7 +344,7 @@ func genExtSeqCase(t *rapid.T) *ExtSeqCase {
 	}
 	usedIDs := []int{}
 	for i := 0; i < steps; i++ {
-		kind := rapid.SampledFrom([]string{"set", "set", "set", "del", "get", "wire"}).Draw(t, "kind")
+		kind := rapid.SampledFrom([]string{"set", "set", "set", "del", "get", "wire", "set", "set", "del", "get", "wire", "rewire"}).Draw(t, "kind")
 		if i == fillAt {
 			kind = "fill"
 		}
@@ -352,7 +374,7 @@ func genExtSeqCase(t *rapid.T) *ExtSeqCase {
 	return c
 }
 
-const ruleC05 = "rapid draws a start state (fresh, one-byte preset, two-byte preset, legacy preset with any profile, header decoded from a reference image - half of the time into a Header that decoded 1-2 other images before) and 1-25 operations Set(id 0-255 biased to 0,1,14,15,16,255; value length 0-300 biased to 0,1,16,17,255,256)/Del/Get/Wire(Marshal, with or without payload bytes behind the header, Unmarshal, optionally continue on the decoded header)/Fill(set 14-255 consecutive ids with values of up to 255 bytes: the profile filled to capacity, extension blocks up to 65536 bytes); oracle: ordered-map model that follows the return values (nil => applied, error => header observably unchanged incl. Marshal bytes), no panic, every accepted value survives the wire, Marshal may refuse only a legacy value that is not whole words. Non-trivial = sequence with an accepted Set, a replacing Set or effective Del, and a successful Wire after them; distinct = FNV-64 of the JSON case"
+const ruleC05 = "rapid draws a start state (fresh, one-byte preset, two-byte preset, legacy preset with any profile, header decoded from a reference image - half of the time into a Header that decoded 1-2 other images before) and 1-25 operations Set(id 0-255 biased to 0,1,14,15,16,255; value length 0-300 biased to 0,1,16,17,255,256)/Del/Get/Wire(Marshal, with or without payload bytes behind the header, Unmarshal, optionally continue on the decoded header)/Rewire(the header, after further Set/Del calls, decodes the bytes of an earlier Wire step and must hold exactly what they carry)/Fill(set 14-255 consecutive ids with values of up to 255 bytes: the profile filled to capacity, extension blocks up to 65536 bytes); oracle: ordered-map model that follows the return values (nil => applied, error => header observably unchanged incl. Marshal bytes), no panic, every accepted value survives the wire, Marshal may refuse only a legacy value that is not whole words. Non-trivial = sequence with an accepted Set, a replacing Set or effective Del, and a successful Wire after them; distinct = FNV-64 of the JSON case"
 
 func TestC05(t *testing.T) {
 	r := begin(t, "C05", "exploration", ruleC05)
